@@ -2,7 +2,7 @@
 """Syntactic mutation sweep over one source file of pitt-rnel/pyrtma, judged by whole checks (`./check Cnn`).
 
     tools/mutate_check.py <worktree> <relative file> --checks C09[,C10...] [--only f1,f2] [--skip f1,f2]
-                          [--limit N] [--lines l1,l2] [--out file.jsonl] [--timeout S]
+                          [--limit N] [--from N] [--lines l1,l2] [--out file.jsonl] [--timeout S] [--list]
 
 The worktree is a scratch `git worktree` of /repo (never /repo itself).  For every mutant (comparison / boolean operator
 swaps, 0<->1 constants, deleted simple statements, negated conditions, swapped `continue`/`break`, +/- swaps) of the file
@@ -23,6 +23,7 @@ checks = arg("--checks").split(",")
 only = set(arg("--only").split(",")) if arg("--only") else None
 skip = set(arg("--skip").split(",")) if arg("--skip") else set()
 limit = int(arg("--limit", 10 ** 9))
+first = int(arg("--from", 1))        # resume: skip the mutants numbered below this (numbering unchanged)
 lines_only = set(int(x) for x in arg("--lines").split(",")) if arg("--lines") else None
 timeout = int(arg("--timeout", 1500))
 out = open(arg("--out"), "a") if arg("--out") else sys.stdout
@@ -30,7 +31,9 @@ assert os.path.realpath(wt) != "/repo"
 path = os.path.join(wt, rel)
 src = open(path).read()
 tree = ast.parse(src)
-scratch = tempfile.mkdtemp(prefix="mutchk_")
+# scratch (evidence / replays of the mutant runs) next to the output file, not in /tmp's root where cleaners roam
+scratch = tempfile.mkdtemp(prefix="mutchk_", dir=os.path.dirname(os.path.abspath(arg("--out"))) if arg("--out") else None)
+HERE = os.path.dirname(os.path.dirname(os.path.abspath(__file__)))  # the clone this tool lives in (never a fixed /verif)
 
 CMP = {ast.Lt: ast.LtE, ast.LtE: ast.Lt, ast.Gt: ast.GtE, ast.GtE: ast.Gt, ast.Eq: ast.NotEq, ast.NotEq: ast.Eq,
        ast.In: ast.NotIn, ast.NotIn: ast.In, ast.Is: ast.IsNot, ast.IsNot: ast.Is}
@@ -122,15 +125,19 @@ def apply(kind, node, i):
 def run_check(prop):
     ev, rp = os.path.join(scratch, "evidence"), os.path.join(scratch, "replays")
     shutil.rmtree(rp, ignore_errors=True)
+    os.makedirs(scratch, exist_ok=True)
     env = dict(os.environ, PYRTMA_REPO=wt, VERIF_EVIDENCE_DIR=ev, VERIF_REPLAYS_DIR=rp, VERIF_NOCACHE="1")
     t0 = time.time()
     try:
-        p = subprocess.run(["/verif/check", prop], capture_output=True, text=True, env=env, timeout=timeout, cwd="/verif")
+        p = subprocess.run([os.path.join(HERE, "check"), prop], capture_output=True, text=True, env=env, timeout=timeout, cwd=HERE)
         rc, text = p.returncode, p.stdout + p.stderr
     except subprocess.TimeoutExpired:
         rc, text = 2, "timeout"
     r = {"rc": rc, "s": round(time.time() - t0)}
     vl = [l for l in text.splitlines() if l.startswith("VIOLATION")]
+    if rc == 1 and not vl:
+        rc = 2      # exit 1 without a VIOLATION line is an uncaught exception of the framework, not a verdict
+    r["rc"] = rc
     if vl:
         r["nofail"] = vl[0].endswith("no-failing-input-found")
         try:
@@ -169,6 +176,12 @@ try:
         except SyntaxError:
             continue
         n += 1
+        if n < first:
+            continue
+        if "--list" in sys.argv:        # dry run: what would be applied (no check runs)
+            print(json.dumps({"n": n, "kind": kind, "func": f, "line": getattr(node, "lineno", 0), "before": before,
+                              "after": after}), file=out, flush=True)
+            continue
         open(path, "w").write(text)
         try:
             res = {p: run_check(p) for p in checks}
